@@ -63,8 +63,14 @@ def rnd_int(rng):
     return rng.choice([1, -1]) * rng.getrandbits(rng.randrange(1, 71))
 
 
+SPECIAL_NAMES = ["__proto__", "constructor", "prototype", "toString", "valueOf", "hasOwnProperty", "length", "get", "set",
+                 "__defineGetter__", "__lookupGetter__", "isPrototypeOf", "toJSON", "then", "caller", "arguments", "name"]
+
+
 def rnd_key(rng, allow01):
     c = rng.random()
+    if c < 0.06:
+        return pw_str(wire.units(rng.choice(SPECIAL_NAMES)))     # ordinary JSON text that means something to a script
     if c < 0.6:
         return pw_str(rnd_units(rng))
     if c < 0.8:
